@@ -51,6 +51,83 @@ def fail_servers():
     }
 
 
+def rate_fault_servers():
+    """targets that offer Diffie-Hellman key exchanges (so the connection-rate check runs) and whose rate-check connections misbehave at the
+    socket level; the handshake and the probes are healthy"""
+    import errno
+    def dh(**kw):
+        return fn.simple_server(kex=('curve25519-sha256', 'diffie-hellman-group14-sha256'), key=('ssh-ed25519',), enc=('aes256-ctr',), mac=('hmac-sha2-256-etm@openssh.com',),
+                                hostkeys={'ssh-ed25519': fn.ed25519_blob()}, **kw)
+    return {
+        'rateok': dh(),
+        'rateunreach': dh(rate_fault=('recv', errno.EHOSTUNREACH)),      # ICMP host-unreachable surfacing on a rate-check socket
+        'ratenetdown': dh(rate_fault=('recv', errno.ENETDOWN)),
+        'ratereset': dh(rate_fault=('recv', errno.ECONNRESET)),
+        'raterefused': dh(rate_fault=('connect', errno.ECONNREFUSED)),
+        'ratenobufs': dh(rate_fault=('connect', errno.ENOBUFS)),
+        'probeunreach': fn.simple_server(kex=('curve25519-sha256',), key=('ssh-ed25519', 'rsa-sha2-512'), hostkeys={'ssh-ed25519': fn.ed25519_blob(), 'rsa-sha2-512': fn.rsa_blob(3072)},
+                                         sock_fault=('recv', errno.EHOSTUNREACH, 1)),
+        'hsunreach': fn.simple_server(kex=('curve25519-sha256',), key=('ssh-ed25519',), hostkeys={'ssh-ed25519': fn.ed25519_blob()}, sock_fault=('recv', errno.EHOSTUNREACH, 0)),
+    }
+
+
+FLEET_BOOT = r'''
+import json, sys
+sys.path.insert(0, %(harness)r)
+import common
+common.repo_src()
+from props import multi_common as mc
+servers = mc.arch_servers()
+servers.update(mc.fail_servers())
+servers.update(mc.rate_fault_servers())
+names, threads, extra, rate = json.loads(sys.argv[1])
+code, out, hosts, net = mc.run_targets(names, servers, threads=threads, extra=extra, rate=rate)
+print('\nFLEET-RESULT ' + json.dumps({'code': code, 'out': out}), flush=True)
+singles = [list(mc.run_single(n, servers, mc.ip_of(i), extra, rate=rate)) for i, n in enumerate(names)]
+print('\nFLEET-SINGLES ' + json.dumps(singles), flush=True)
+'''
+
+
+def isolated_fleets(cases, par=8, timeout=25):
+    """multi-target runs (and the single-target runs of the same targets), each case in a process of its own with a time limit: a run that
+    blocks for ever (a worker waiting on a lock nobody releases, …) is reported as {'hang': True} instead of hanging the check.
+    cases: [(names, threads, extra, rate)] -> list of {'code', 'out', 'singles'} | {'hang': True, 'partial': …}"""
+    import subprocess
+    import sys as _sys
+    import time as _time
+    here = os.path.dirname(os.path.dirname(os.path.abspath(__file__)))
+    boot = FLEET_BOOT % {'harness': here}
+    res = [None] * len(cases)
+    pending = list(enumerate(cases))
+    procs = []
+    while pending or procs:
+        while pending and len(procs) < par:
+            i, c = pending.pop(0)
+            procs.append((i, _time.time(), subprocess.Popen([_sys.executable, '-c', boot, json.dumps(list(c))], stdout=subprocess.PIPE, stderr=subprocess.PIPE,
+                                                            env=dict(os.environ, PYTHONDONTWRITEBYTECODE='1'))))
+        i, t0, pr = procs.pop(0)
+        try:
+            so, se = pr.communicate(timeout=max(1, timeout - (_time.time() - t0)))
+            hang = False
+        except subprocess.TimeoutExpired:
+            pr.kill()
+            so, se = pr.communicate()
+            hang = True
+        text = so.decode('utf-8', 'replace')
+        r = {}
+        for l in text.split('\n'):
+            if l.startswith('FLEET-RESULT '):
+                r.update(json.loads(l[13:]))
+            elif l.startswith('FLEET-SINGLES '):
+                r['singles'] = json.loads(l[14:])
+        if hang:
+            r = {'hang': True, 'partial': r, 'stdout_tail': text[-300:]}
+        elif 'code' not in r or 'singles' not in r:
+            raise RuntimeError('isolated fleet run failed for %r: %s' % (cases[i], se.decode()[-600:]))
+        res[i] = r
+    return res
+
+
 def edit_then_abort_servers():
     """targets whose scan first writes a finding into the rating database (small RSA host key) and then leaves through
     sys.exit(): the reconnect for the next host-key type is answered with a bad block size"""
@@ -75,7 +152,7 @@ def fresh_copy(srv):
     return s
 
 
-def run_targets(names, servers, threads=1, extra=(), unresolvable=(), gate=None, policy=None):
+def run_targets(names, servers, threads=1, extra=(), unresolvable=(), gate=None, policy=None, rate=False):
     """Runs the real main() with -T on the named archetypes (one IP each, in list order). Returns (exit, stdout, ips)."""
     ips = [ip_of(i) for i in range(len(names))]
     table = {}
@@ -92,7 +169,7 @@ def run_targets(names, servers, threads=1, extra=(), unresolvable=(), gate=None,
     os.write(fd, ('\n'.join(lines) + '\n').encode())
     os.close(fd)
     try:
-        args = ['-n', '--skip-rate-test', '-T', path, '--threads', str(threads)] + list(extra)
+        args = ['-n'] + ([] if rate else ['--skip-rate-test']) + ['-T', path, '--threads', str(threads)] + list(extra)
         if policy:
             args += ['-P', policy]
         code, out = fn.run_main(args, net)
@@ -101,10 +178,10 @@ def run_targets(names, servers, threads=1, extra=(), unresolvable=(), gate=None,
     return code, out, lines, net
 
 
-def run_single(name, servers, ip, extra=(), unresolvable=False, policy=None):
+def run_single(name, servers, ip, extra=(), unresolvable=False, policy=None, rate=False):
     table = {} if unresolvable else {ip: fresh_copy(servers[name])}
     host = ('no-such-host-%s.invalid' % ip.replace('.', '-')) if unresolvable else ip
-    args = ['-n', '--skip-rate-test'] + list(extra)
+    args = ['-n'] + ([] if rate else ['--skip-rate-test']) + list(extra)
     if policy:
         args += ['-P', policy]
     code, out = fn.run_main(args + [host], fn.FakeNet(table))
